@@ -552,7 +552,8 @@ func (fc *FnCtx) modifiesToWS(ct *FuncContract, ws *WriteSet) {
 			ws.add(l)
 		case strings.Contains(m, "."):
 			// Type.field
-			parts := strings.SplitN(m, ".", 2)
+			li := strings.LastIndex(m, ".")
+			parts := []string{m[:li], m[li+1:]}
 			ty := fc.lookupTypeNameIn(parts[0], ct.PkgPath)
 			if ty == nil {
 				fc.fail("modifies: unknown type %s in contract of %s", parts[0], ct.Name)
